@@ -13,7 +13,7 @@ TB = ("Trusted: go/types + go/ssa (x/tools v0.29.0); the neo-go compiler maps th
 P = {
  "C01": ("other",
          "abstract interpretation (CNF must-fact dataflow over inlined SSA) + term agreement of legs/supply/notifications + who-may-write over key families",
-         "Decides, for all inputs and all paths of every Balance method, the step obligations of the inductive argument behind 'supply = sum of balances, no negative balance': single writers of the account family and the supply key; debit = loaded(from).Balance - amount (or delete when equal), credit = loaded(to).Balance + amount with the same amount term; Mint/Burn move the supply by exactly that amount (Burn under supply >= amount); amount >= 0 and Balance >= amount established at the stores; credit loaded after the debit store (self-transfer); refusal leaves no effect; exactly one Transfer/TransferX with the legs' arguments and no other emitter. This is a sound structural necessary condition for every history, not an execution of histories, hence 'other'. Added by the mutation sweep: both legs executed exactly for 20-byte addresses at every success exit, supply written on every return of Mint/Burn, stored-or-default loaders.",
+         "Decides, for all inputs and all paths of every Balance method, the step obligations of the inductive argument behind 'supply = sum of balances, no negative balance': single writers of the account family and the supply key; debit = loaded(from).Balance - amount (or delete when equal), credit = loaded(to).Balance + amount with the same amount term; Mint/Burn move the supply by exactly that amount (Burn under supply >= amount); amount >= 0 and Balance >= amount established at the stores; credit loaded after the debit store (self-transfer); refusal leaves no effect; exactly one Transfer/TransferX with the legs' arguments and no other emitter. This is a sound structural necessary condition for every history, not an execution of histories, hence 'other'. Added by the mutation sweep: both legs executed exactly for 20-byte addresses at every success exit, supply written on every return of Mint/Burn, stored-or-default loaders. Round 8: no package-level struct variable is handed out (neo-go structs are references).",
          "§5 C01"),
  "C02": ("other",
          "abstract interpretation: entailment of (not executed or witness-of-account or caller-is-account or Alphabet) at every site that can lower a balance",
@@ -25,7 +25,7 @@ P = {
          "§5 C03, App. A"),
  "C04": ("other",
          "storage-layout analysis over canonical key terms (who-may-delete, writer/remover agreement, paired indices) + must-facts for tombstone/existence guards + exit-fact equivalence of notification and state change",
-         "Decides for all paths: registry key = 'x'||sha256(blob) with the blob stored; put reachable only with the tombstone read absent, delete writes it, nothing deletes tombstones (the migration is shown harmless by key-length facts); every id-keyed family a put can populate (x, o, eACL, nnsHasAlias, m) is removed by Delete with the same id on every effectful path, the NNS record cleanup is attempted whenever the alias is removed, alias entry and NNS record are written together; owner index component produced by the same function at put and delete time; getters return only for live containers; PutSuccess/DeleteSuccess/SetEACLSuccess emitted at one site exactly with the state change. Equality with a model over interleavings is not decided, hence 'other'. Added by the mutation sweep: delete removes exactly when the owner lookup found an owner, list/containersOf key selection, meta flag iff metaOnChain, loaders. Round 6: the id-keyed families (registry, owner index, eACL, alias, meta flag) are deleted only from Delete (registry/owner index also by the layout migration).",
+         "Decides for all paths: registry key = 'x'||sha256(blob) with the blob stored; put reachable only with the tombstone read absent, delete writes it, nothing deletes tombstones (the migration is shown harmless by key-length facts); every id-keyed family a put can populate (x, o, eACL, nnsHasAlias, m) is removed by Delete with the same id on every effectful path, the NNS record cleanup is attempted whenever the alias is removed, alias entry and NNS record are written together; owner index component produced by the same function at put and delete time; getters return only for live containers; PutSuccess/DeleteSuccess/SetEACLSuccess emitted at one site exactly with the state change. Equality with a model over interleavings is not decided, hence 'other'. Added by the mutation sweep: delete removes exactly when the owner lookup found an owner, list/containersOf key selection, meta flag iff metaOnChain, loaders. Round 6: the id-keyed families (registry, owner index, eACL, alias, meta flag) are deleted only from Delete (registry/owner index also by the layout migration). Round 8: named arguments of resolvable cross-contract calls stand at the parameter their name is meant for.",
          "§5 C04"),
  "C05": ("other",
          "term agreement and must-facts at the fee transfer call; loop-shape analysis; dominance; must-execute fact at the exits of the fee setter",
@@ -33,7 +33,7 @@ P = {
          "§5 C05"),
  "C06": ("other",
          "must-facts at every effect of NewEpoch, write-set exclusion, term checks of published keys/values, loop-shape of the fan-out, membership-loop dominance of the subscription write",
-         "Decides for all paths: every effect of NewEpoch under stored epoch < epochNum; epoch key written only there with Param(epochNum); candidate families untouched; 'p'||BE4(epoch)||key -> value for every structured candidate, legacy snapshot = candidates filtered by State != Offline, tick height, one notification; one newEpoch call per stored subscriber in key order with no early exit and no catching frame, after publication; subscription written only after comparison with every stored subscriber, index = count. Model equality over histories is not decided, hence 'other'. Added by the mutation sweep: the converse of the epoch guard (own code faults only without the witness or for epochNum <= stored epoch).",
+         "Decides for all paths: every effect of NewEpoch under stored epoch < epochNum; epoch key written only there with Param(epochNum); candidate families untouched; 'p'||BE4(epoch)||key -> value for every structured candidate, legacy snapshot = candidates filtered by State != Offline, tick height, one notification; one newEpoch call per stored subscriber in key order with no early exit and no catching frame, after publication; subscription written only after comparison with every stored subscriber, index = count. Model equality over histories is not decided, hence 'other'. Added by the mutation sweep: the converse of the epoch guard (own code faults only without the witness or for epochNum <= stored epoch). Round 8: fixed-width key encoders reverse the padded buffer.",
          "§5 C06"),
  "C07": ("other",
          "term agreement witnessed key = storage key, must-facts at stores, exit-fact equivalences across both candidate representations, dispatch coverage",
@@ -45,7 +45,7 @@ P = {
          "§5 C08"),
  "C09": ("other",
          "abstract interpretation + term agreement at the refund call of NewEpoch and the lock record of Lock",
-         "Decides that Lock writes {0, until, from} at the lock account before transferring, that the NewEpoch refund is called only under Until != 0 and epochNum >= Until with from = scanned key, to = Parent, amount = Balance of the record loaded from that key, that the re-read by the debit leg cannot be preceded by another account store (so the record is deleted: no second unlock), that partial burns keep Until/Parent, that a successful transfer of an account's whole loaded balance deletes its record for every amount (0 included), that an iteration of the tick goes round the refund only for a non-account key, Until = 0 or epochNum < Until and the scan is left only on exhaustion (every visited expired lock is released), and that a fresh deploy subscribes to the tick. Timing over tick schedules and iterator semantics are assumed, hence 'other'.",
+         "Decides that Lock writes {0, until, from} at the lock account before transferring, that the NewEpoch refund is called only under Until != 0 and epochNum >= Until with from = scanned key, to = Parent, amount = Balance of the record loaded from that key, that the re-read by the debit leg cannot be preceded by another account store (so the record is deleted: no second unlock), that partial burns keep Until/Parent, that a successful transfer of an account's whole loaded balance deletes its record for every amount (0 included), that an iteration of the tick goes round the refund only for a non-account key, Until = 0 or epochNum < Until and the scan is left only on exhaustion (every visited expired lock is released), and that a fresh deploy subscribes to the tick. Timing over tick schedules and iterator semantics are assumed, hence 'other'. Round 8: the loader rules of C01 are decided here as well.",
          "§5 C09"),
  "C10": ("other",
          "per-path ledger balance over effect literals, single writers, term checks of stored records/notifications, boundary-operator agreement over all time/expiration comparisons, ordering of release before credit",
@@ -53,7 +53,7 @@ P = {
          "§5 C10"),
  "C11": ("other",
          "abstract interpretation: gate entailment with subject agreement between the witnessed NameState and the token id keying the changed record",
-         "For addRecord/setRecord/deleteRecords/updateSOA/renew every effect is gated by committee or W(owner(T)) or W(admin(T)) with T exactly the token id keying the written/deleted record; transfer by W(owner); setAdmin by W(owner) and (admin nil or W(admin)); register by W(owner argument) and, above level 2, the admin formula of the name without its first label; checkAdmin's own formula; Transfer stores the record with Admin := nil (a former admin loses its rights). Signer sets over histories are not enumerated, hence 'other'. Round 7: the documented gates of the NNS mutators (gate rule shared with C03) are decided here as well.",
+         "For addRecord/setRecord/deleteRecords/updateSOA/renew every effect is gated by committee or W(owner(T)) or W(admin(T)) with T exactly the token id keying the written/deleted record; transfer by W(owner); setAdmin by W(owner) and (admin nil or W(admin)); register by W(owner argument) and, above level 2, the admin formula of the name without its first label; checkAdmin's own formula; Transfer stores the record with Admin := nil (a former admin loses its rights). Signer sets over histories are not enumerated, hence 'other'. Round 7: the documented gates of the NNS mutators (gate rule shared with C03) are decided here as well. Round 8: record-owner (tokenIDFromName) shared with C12.",
          "§5 C11"),
  "C12": ("other",
          "must-facts at record stores, exit facts for the SOA refresh, key-schema analysis of the record family, constant/argument checks of the redirect budget",
@@ -61,7 +61,7 @@ P = {
          "§5 C12"),
  "C13": ("other",
          "AST/type lints specific to deploy/ with positive controls + SSA dominance and taint rules",
-         "Explicitly thin: structural necessary conditions only. Index-space consistency of re-sliced ranges; no map iteration order reaching a witness script; tryDeploy/tryTransfer computed as 'local index == 0' and dominating every deploying/funding submission; committee sorted before the index search; NNS stage first; no import that can persist local progress; encoder/decoder field tables of the shared transaction data and checksum helpers agree; name constants agree across deploy, rpc/nns, common and the contracts; a closure invalidating the shared transaction clears the signature cache validated against it; Transaction.Nonce/ValidUntilBlock depend on a chain height only through the window index (SSA taint); a typed constant a call is made with agrees with the one its error wrap names; a local that starts at a negative sentinel and is branched on is assigned somewhere (copy-paste contradiction rules with embedded positive controls). Added by the deploy mutation sweep: an error is not wrapped, logged or returned on the side where it was just found nil; the 'not found' test of a position-or-sentinel local keeps position 0 with the other positions; a search loop hands out its index on the equal side; no submission is reachable only through the 'still pending' side of the monitor's in-flight query; the shared-data matcher answers true only where every field compared equal; a signature is collected only on the true side of its verification and of the checksum split. Termination/convergence under schedules and crash points, fund and window arithmetic are NOT decided (would need execution or model checking). Round 6: in the signature-collection loop the failure side of a per-member error test always goes on with the next member. Round 7: a share-out helper calling f(index, amount) from two counting loops passes adjacent index ranges.",
+         "Explicitly thin: structural necessary conditions only. Index-space consistency of re-sliced ranges; no map iteration order reaching a witness script; tryDeploy/tryTransfer computed as 'local index == 0' and dominating every deploying/funding submission; committee sorted before the index search; NNS stage first; no import that can persist local progress; encoder/decoder field tables of the shared transaction data and checksum helpers agree; name constants agree across deploy, rpc/nns, common and the contracts; a closure invalidating the shared transaction clears the signature cache validated against it; Transaction.Nonce/ValidUntilBlock depend on a chain height only through the window index (SSA taint); a typed constant a call is made with agrees with the one its error wrap names; a local that starts at a negative sentinel and is branched on is assigned somewhere (copy-paste contradiction rules with embedded positive controls). Added by the deploy mutation sweep: an error is not wrapped, logged or returned on the side where it was just found nil; the 'not found' test of a position-or-sentinel local keeps position 0 with the other positions; a search loop hands out its index on the equal side; no submission is reachable only through the 'still pending' side of the monitor's in-flight query; the shared-data matcher answers true only where every field compared equal; a signature is collected only on the true side of its verification and of the checksum split. Termination/convergence under schedules and crash points, fund and window arithmetic are NOT decided (would need execution or model checking). Round 6: in the signature-collection loop the failure side of a per-member error test always goes on with the next member. Round 7: a share-out helper calling f(index, amount) from two counting loops passes adjacent index ranges. Round 8: no Hash160/Hash256/PublicKey result is a raw convert.ToBytes(…).",
          "§5 C13"),
  "C14": ("other",
          "typestate/loop-shape analysis of the counting loop, key-schema analysis of the roster families, must-facts at acceptance and notification",
@@ -81,11 +81,11 @@ P = {
          "§5 C17"),
  "C18": ("other",
          "must-facts: validation precedes state, dispatch coverage of record types, numeric limits at the accepting exits of the validators, digit fact before every decimal Atoi",
-         "Explicitly thin. Decides: Register/RegisterTLD reach effects only after the name validator accepted the name, AddRecord/SetRecord only after the type-specific validator accepted the data and only for A/CNAME/TXT/AAAA; accepting exits establish 3 <= len <= 255, fragments 1..63, the last label validated as root (<= 16, leading letter), first and last byte of every accepted fragment in [a-z0-9] and every inner byte in [a-z0-9-] (loop 1..len-2); every decimal Atoi in a validator is reached only with a digit first byte. That the scanners accept EXACTLY the well-formed strings is NOT decided. Added by the mutation sweep: the fragment validator and safeSplitAndCheck are decided in both directions (no rejecting exit satisfiable with all documented conditions). Round 6: a decimal fragment is accepted only if it does not start with '0' or is one byte long; the zero-filled range of an elided IPv6 run and the shifted slot of the next group are adjacent (two clauses of the address scanners; the scanners as a whole stay undecided).",
+         "Explicitly thin. Decides: Register/RegisterTLD reach effects only after the name validator accepted the name, AddRecord/SetRecord only after the type-specific validator accepted the data and only for A/CNAME/TXT/AAAA; accepting exits establish 3 <= len <= 255, fragments 1..63, the last label validated as root (<= 16, leading letter), first and last byte of every accepted fragment in [a-z0-9] and every inner byte in [a-z0-9-] (loop 1..len-2); every decimal Atoi in a validator is reached only with a digit first byte. That the scanners accept EXACTLY the well-formed strings is NOT decided. Added by the mutation sweep: the fragment validator and safeSplitAndCheck are decided in both directions (no rejecting exit satisfiable with all documented conditions). Round 6: a decimal fragment is accepted only if it does not start with '0' or is one byte long; the zero-filled range of an elided IPv6 run and the shifted slot of the next group are adjacent (two clauses of the address scanners; the scanners as a whole stay undecided). Round 8: every key Register writes for a valid name fits the 64-byte limit.",
          "§5 C18"),
  "C19": ("other",
          "must-facts at notification/transfer sites, canonical arithmetic terms of the shares, loop-shape of per-node transfers",
-         "Decides: Deposit only under caller = GAS and 0 < amount <= 9000*10^8 with receiver in {20-byte data, sender}; Withdraw under W(user), 0 <= amount <= 9000, fee = configured WithdrawFee once to Processing (Notary) / once per stored Alphabet key, results checked, amount*10^8 notified; Cheque pays exactly (self -> user, amount) once, checked, same terms notified, and (without Notary) only at the 2/3+1 threshold of the witnessed Alphabet members after removing the ballot of the same id; candidate fee from the witnessed key's account with the ignore marker; Emit shares floor(g/2) and floor((g - g/2)*7/8/N) over the iterated Inner Ring list; payment callbacks accept only GAS (Alphabet also NEO). The balance identity over histories is not decided, hence 'other'. Added by the mutation sweep: converses for the deposit callback and Withdraw, candidate charged exactly when not stored yet, every accepted payment reported. Round 6: a payment carrying the candidate-fee marker is never refused, whatever its amount. Round 7: the documented gate of alphabet.Emit (gate rule shared with C03) is decided here as well.",
+         "Decides: Deposit only under caller = GAS and 0 < amount <= 9000*10^8 with receiver in {20-byte data, sender}; Withdraw under W(user), 0 <= amount <= 9000, fee = configured WithdrawFee once to Processing (Notary) / once per stored Alphabet key, results checked, amount*10^8 notified; Cheque pays exactly (self -> user, amount) once, checked, same terms notified, and (without Notary) only at the 2/3+1 threshold of the witnessed Alphabet members after removing the ballot of the same id; candidate fee from the witnessed key's account with the ignore marker; Emit shares floor(g/2) and floor((g - g/2)*7/8/N) over the iterated Inner Ring list; payment callbacks accept only GAS (Alphabet also NEO). The balance identity over histories is not decided, hence 'other'. Added by the mutation sweep: converses for the deposit callback and Withdraw, candidate charged exactly when not stored yet, every accepted payment reported. Round 6: a payment carrying the candidate-fee marker is never refused, whatever its amount. Round 7: the documented gate of alphabet.Emit (gate rule shared with C03) is decided here as well. Round 8: the gate of Cheque (shared with C03) is decided here as well.",
          "§5 C19"),
  "C20": ("other",
          "storage-layout analysis: component kinds of every Find prefix and Put key (R-prefix rule, family disjointness, put/get key agreement) + must-facts for gates, id length bound and cleanup deltas",
